@@ -290,3 +290,17 @@ func init() {
 		},
 	})
 }
+
+func init() {
+	register(&Property{
+		ID:    "C33",
+		Units: []string{"fasthttputil.(*PipeConns)", "fasthttputil.(*pipeConn)", "fasthttputil.NewPipeConns", "fasthttputil.acquireByteBuffer", "fasthttputil.releaseByteBuffer"},
+		Runs: []Run{
+			{Pkg: "fasthttputil", Func: "vhC33PipeStream", Quick: map[string]int{"writes": 2, "writeLen": 3}, Thorough: map[string]int{"writes": 3, "writeLen": 4}},
+		},
+		Assume: []string{
+			"PipeConns half only, sequential histories: up to `writes` writes of ≤ writeLen arbitrary bytes on one end (either direction), optionally interleaved with reads of buffer size 1 or 8 on the other end, then Close of the writing end, drain with 4-byte reads, and a write after Close; channels and sync.Pool run on the engine's scheduler",
+			"concurrent writers/readers, deadlines, closing the reading end first, and InmemoryListener Dial/Accept/Close pairing are outside this check",
+		},
+	})
+}
